@@ -71,6 +71,9 @@ def domOf (t : Nat) : Nat := domOfDay (dayNum t)
 /-- day of the year, 1-based (`{doy}`) -/
 def doyOf (t : Nat) : Nat := doy0OfDay (dayNum t) + 1
 def hourOf (t : Nat) : Nat := t % usPerDay / usPerHour
+def minuteOf (t : Nat) : Nat := t % usPerHour / 60000000
+def secondOf (t : Nat) : Nat := t % 60000000 / 1000000
+def microOf (t : Nat) : Nat := t % 1000000
 
 /-- directory-level resolutions (`_get_time_resolution(...)[0]` restricted to the
 placeholders a directory level may hold; `doy` counts as `day`, `year2` as `year`) -/
@@ -109,7 +112,9 @@ def mkDate (y m d : Nat) (h : Option Nat) : Option Nat :=
     some ((dby y + dbm (isLeap y) m + (d - 1)) * usPerDay + hh * usPerHour)
   else none
 
-/-- full 7-tuple to time (used by the driver's calendar cross-check) -/
+/-- the 7-tuple `(year, month, day, hour, minute, second, microsecond)` as a time, `none`
+when it is not a valid `datetime`; inverse of the field functions
+(`ofFields_fields`, `fields_ofFields` in `Proofs/Lemmas/Time.lean`) -/
 def ofFields (y mo d h mi s us : Nat) : Option Nat :=
   match mkDate y mo d (some h) with
   | some t => if mi < 60 ∧ s < 60 ∧ us < 1000000 then some (t + mi * 60000000 + s * 1000000 + us) else none
